@@ -87,7 +87,7 @@ def run(pid, spec, tier, seed):
         cl = f["clause"]
         rec = {"engine": "rac", "unit": "rac:" + suite, "fn": suite, "kind": "runtime-contract", "labels": cl, "name": cl,
                "msg": f"runtime contract [{cl}] violated: {f['detail']}", "rendered": "history: " + "; ".join(f["history"]) + "\n" + f["detail"],
-               "witness": {"engine": "rac", "suite": suite, "history": f["history"], "clause": cl, "detail": f["detail"]},
+               "witness": {"engine": "rac", "suite": suite, "report_suite": d.get("suite", suite), "history": f["history"], "clause": cl, "detail": f["detail"]},
                "witness_key": "; ".join(f["history"])}
         if cl == pid or cl.startswith(pid + ".") or cl in spec.get("also", {}).get(pid, []):
             failures.append(rec)
@@ -121,7 +121,16 @@ def replay_witness(pid, w):
         print("kani witness: re-running the property check")
         return subprocess.call([os.path.join(ROOT, "check"), pid])
     binp = build()
-    p = subprocess.run([binp, "replay", w["suite"], "; ".join(w["history"])], capture_output=True, text=True)
+    rs = w.get("report_suite", w["suite"])
+    env = dict(os.environ)
+    target = w["suite"]
+    if ":" in rs:
+        kind, fmt = rs.split(":", 1)
+        target = "vec:" + fmt
+        if kind == "vecreads": env["RAC_READS"] = "1"
+        if kind == "vecpages": env["RAC_PAGE_ALPHABET"] = "1"
+        if kind == "vecchain": env["RAC_CHAIN_ALPHABET"] = "1"
+    p = subprocess.run([binp, "replay", target, "; ".join(w["history"])], capture_output=True, text=True, env=env)
     print(p.stdout.strip())
     if p.returncode == 1:
         print(f"VIOLATION property={pid} replay=(replayed) clause={w.get('clause')}")
